@@ -3,7 +3,7 @@
     set is given as a list of flags by validator index.  The correspondence check runs these on the
     signature logs of real ConsensusStates (harness/overlay/consensus/verif_net_test.go). *)
 From Coq Require Import List ZArith Arith Bool.
-From Kardia Require Import C01.Power C01.Agreement C01.Checker C01.Sync.
+From Kardia Require Import C01.Power C01.Agreement C01.Checker C01.Sync C01.Lock C01.Monitor.
 Import ListNotations.
 Local Open Scope Z_scope.
 
@@ -74,3 +74,15 @@ Definition ev_block (peer : nat) (b : blk nat) : pevent nat := EvBlock nat peer 
 Definition ev_process : pevent nat := EvProcess nat.
 Definition ev_peer_error (peer : nat) : pevent nat := EvPeerError nat peer.
 Definition ev_finished : pevent nat := EvFinished nat.
+
+(** ---- the lock automaton as a monitor of validator i on a recorded trace (C01/Monitor.v) ---- *)
+
+(** [None]: an own event violates a guard of the automaton; [Some l]: accepted, l = the lock held at
+    the end of the trace (block, lock round) *)
+Definition run_monitor_lock (powers : list Z) (tr : trace nat) (i : nat) : option (option (nat * nat)) :=
+  option_map (fun p => l_locked nat (fst p)) (monitor powers nat Nat.eq_dec i tr).
+
+(** all non-faulty validators are accepted *)
+Definition run_monitor_all (powers : list Z) (flags : list bool) (tr : trace nat) : bool :=
+  forallb (fun i => faulty_of flags i || match run_monitor_lock powers tr i with Some _ => true | None => false end)
+          (seq 0 (length powers)).
